@@ -699,6 +699,7 @@ def State.write (s : State) (id n : Nat) : Option (State × Except WriteErr Nat)
     match s.getOrInsertSend id with
     | none => some (s, .error .closedStream)
     | some (x, s1) =>
+      if x.closedFirst then some (s1, .error .closedStream) else
       match x.stoppedFirst with
       | some c => some (s1, .error (.stopped c))
       | none =>
